@@ -22,6 +22,7 @@ import RdfModel.Driver.RdfXml
 import RdfModel.Driver.Pipe
 import RdfModel.Driver.Html
 import RdfModel.Driver.Latch
+import RdfModel.Driver.Offx
 open RdfModel
 
 def dispatch (line : String) : String :=
@@ -50,6 +51,7 @@ def dispatch (line : String) : String :=
         else if comp = "pipe" then Driver.Pipe.handle op args
         else if comp = "html" then Driver.Html.handle op args
         else if comp = "latch" then Driver.Latch.handle op args
+        else if comp = "offx" then Driver.Offx.handle op args
         else none
       r.getD "bad-op"
     | _ => "bad-op"
